@@ -94,6 +94,31 @@ def clause_a(c: Check):
                      for _, d in util.calls_in(ix, init)) if isinstance(init, FuncDef) else False
     c.expect(not stores_cwd, 'C12-a', 'from_cwd/not-captured-at-construction',
              'the current directory is captured when the resolver is constructed', cw.loc())
+    # ... and nothing but the current directory is ever given for it: on every path (the reading of the current
+    # directory may fail - the directory was removed) what `from_non_hds` returns is the result of that reading
+    fnh = ix.class_member(cw, 'from_non_hds')
+    c.require(isinstance(fnh, FuncDef), 'C12-a: RelNonHdsRootResolverForCwd.from_non_hds not found')
+
+    class HC(Hooks):
+        def inline(self, fd, st):
+            return fd.cls is cw
+
+        def may_raise(self, callee_def, node, st):
+            if isinstance(callee_def, External) and (callee_def.dotted.endswith('.cwd') or callee_def.dotted == 'os.getcwd'):
+                return [External('builtins.FileNotFoundError')]
+            return []
+
+    n_cw = 0
+    for p in util.func_paths(ix, fo, fnh, HC()):
+        if p.kind != 'return':
+            continue
+        n_cw += 1
+        k = util.origin_call_key(util.root_sym(p.val)) if isinstance(p.val, Sym) else None
+        c.expect(k is not None and (str(k).endswith('.cwd') or str(k) == 'os.getcwd'), 'C12-a',
+                 'from_non_hds/is-the-current-directory',
+                 'for -rel-cd the root given is %s on some path, not the current directory: a path resolves to a '
+                 'directory that is not the documented root' % util.describe(p.val), fnh.loc())
+    c.floor('C12-a', 'returning paths of the -rel-cd root resolver', n_cw, 1)
     # option infos: REL_OPTIONS_MAP[k].root_resolver is the resolver of k
     om = fo.fold_path(RPO + ':REL_OPTIONS_MAP')
     c.require(isinstance(om, dict), 'C12-a: REL_OPTIONS_MAP not folded')
